@@ -27,7 +27,8 @@ ASSUMPTIONS = [
     "rendering (not acceptance) is judged",
 ]
 REQUIRED = {"all": ["renders_checked", "valid_updates", "rejected_missing_key", "rejected_bad_colour", "rejected_non_dict",
-                    "rejected_padded_missing_key", "multi_object_histories", "lengths_10k_plus_1", "render_after_reject"]}
+                    "rejected_padded_missing_key", "multi_object_histories", "lengths_10k_plus_1", "render_after_reject", "rejected_empty_mapping",
+                    "caller_edits_after_accept", "second_handle_updates"]}
 NHIST = {"quick": 1000, "thorough": 8000}
 COLOURS = ['aqua', 'black', 'blue', 'fuchsia', 'gray', 'green', 'lime', 'maroon', 'navy', 'olive', 'orange', 'purple',
            'red', 'silver', 'teal', 'white', 'yellow']
@@ -128,7 +129,7 @@ def judge(case, rep, S):
         k = rng.randrange(nobj)
         obj, model = objs[k], models[k]
         kind = rng.choice(["valid", "valid", "valid", "missing", "bad_colour", "bad_value_type", "non_dict", "padded_missing",
-                           "valid_padded"])
+                           "valid_padded", "empty", "valid_then_caller_edits"])
         d = {a: rng.choice(COLOURS) for a in M.AA}
         order = list(M.AA)
         rng.shuffle(order)
@@ -156,6 +157,10 @@ def judge(case, rep, S):
             expect_ok = False
         elif kind == "valid_padded":
             d["X"] = "red"
+        elif kind == "empty":
+            import collections
+            d = rng.choice([{}, collections.OrderedDict()])
+            expect_ok = False
         hist.append(kind)
         try:
             obj.set_HTMLColorResiduePalette(d)
@@ -173,13 +178,36 @@ def judge(case, rep, S):
             rep.cnt("valid_updates")
             for a in M.AA:
                 model[a] = d[a]
+            if kind == "valid_then_caller_edits":
+                # the dictionary belongs to the caller: editing it afterwards is not a palette update
+                rep.cnt("caller_edits_after_accept")
+                d[rng.choice(list(M.AA))] = "pink"
+                del d[rng.choice([a for a in M.AA if a in d])]
+                if nobj > 1:
+                    # ... and giving the same (re-validated) object to another sequence object must not link the two
+                    d2 = {a: rng.choice(COLOURS) for a in M.AA}
+                    j = (k + 1) % nobj
+                    objs[j].set_HTMLColorResiduePalette(d2)
+                    for a in M.AA:
+                        models[j][a] = d2[a]
+                    d2[rng.choice(list(M.AA))] = "navy" if d2.get("A") != "navy" else "teal"
         else:
             rep.cnt({"missing": "rejected_missing_key", "bad_colour": "rejected_bad_colour", "bad_value_type": "rejected_bad_colour",
-                     "non_dict": "rejected_non_dict", "padded_missing": "rejected_padded_missing_key"}[kind])
+                     "non_dict": "rejected_non_dict", "padded_missing": "rejected_padded_missing_key",
+                     "empty": "rejected_empty_mapping"}[kind])
             rep.cnt("render_after_reject")
         ctx = "after %s update #%d, history %s" % ("accepted" if accepted else "rejected", step + 1, hist)
         for o, s, m in zip(objs, seqs, models):
             check_render(rep, o.get_HTMLColorString(), s, m, ctx)
+        if rng.random() < 0.15:
+            # a second front-end handle on the same backend object sees (and sets) the same palette
+            h2 = SP(SeqObj=objs[k].SeqObj)
+            d3 = {a: rng.choice(COLOURS) for a in M.AA}
+            h2.set_HTMLColorResiduePalette(d3)
+            for a in M.AA:
+                models[k][a] = d3[a]
+            rep.cnt("second_handle_updates")
+            check_render(rep, objs[k].get_HTMLColorString(), seqs[k], models[k], ctx + " + update through a second handle on the same backend object")
     rep.distinct((case["s"], tuple(hist), case["o"]))
     if rep.evaluations % 50 == 1:
         rep.sample({"sequence": case["s"][:60], "history": hist, "html_head": objs[0].get_HTMLColorString()[:160]})
